@@ -460,6 +460,7 @@ template <template <class, class> class CPR, int B>
 static void cpr_case(vr::rng &g, const crsd &K, int act, const char *variant) {
     const int n = K.nrows; const int N = act ? act : n; const int np = N / B;
     auto f = ivec(g, n), s = ivec(g, n), p = ivec(g, np);
+    std::vector<std::vector<double>> sfpp; bool sfpp_set = false;      // Fpp columns observed with scalar input
     vr::obj o; o.str("k", "cpr").str("variant", variant).i("B", B).i("act", act); o.raw("K", J(K, o));
     o.dbls("f", f).dbls("s", s).dbls("p", p);
     {   // scalar input, block_size = B
@@ -469,6 +470,7 @@ static void cpr_case(vr::rng &g, const crsd &K, int act, const char *variant) {
         CprObs obs; obs.App = reg<1>().seen.at(0);
         o.raw("Ks", J(*reg<0>().seen.at(0), o));
         cpr_probe<C, double>(cpr, n, np, f, s, p, obs, n);
+        sfpp = obs.fpp; sfpp_set = true;
         o.raw("App", J(*obs.App, o)).raw("fpp", cols_json(obs.fpp, o.exact)).raw("scat", cols_json(obs.scat, o.exact)).raw("rp", cols_json(obs.prog, o.exact)).dbls("x", obs.x);
     }
     bool blockrun = act == 0 && n % B == 0 && std::string(variant) != "drs";
@@ -484,7 +486,17 @@ static void cpr_case(vr::rng &g, const crsd &K, int act, const char *variant) {
         o.raw("bApp", J(*obs.App, o)).raw("bfpp", cols_json(obs.fpp, o.exact)).raw("bscat", cols_json(obs.scat, o.exact)).raw("brp", cols_json(obs.prog, o.exact)).dbls("bx", obs.x);
         (void)sizeof(BEb);
     }
-    put(o);
+    if (o.exact || !sfpp_set) { put(o); return; }
+    // With unimodular diagonal blocks and integer data every observed quantity is an integer. A non-integer
+    // observation cannot be passed to TLC exactly: report how far the observed weights are from the first
+    // row of the inverse diagonal block (long double) instead, so that the rejection names the right clause.
+    auto D = dense_of(K); ld werr = 0;
+    for (int ip = 0; ip < np; ++ip) {
+        std::vector<std::vector<ld>> T(B, std::vector<ld>(B)); for (int i = 0; i < B; ++i) for (int c = 0; c < B; ++c) T[c][i] = D[ip * B + i][ip * B + c];
+        DenseLU lu; lu.factor(T); if (!lu.ok) continue; std::vector<ld> e(B, 0); e[0] = 1; auto w = lu.solve(e);
+        for (int j = 0; j < n; ++j) { ld want = (j / B == ip && j < N) ? w[j % B] : 0; werr = std::max(werr, fabsl((ld)sfpp[j][ip] - want)); }
+    }
+    vr::obj d; d.str("k", "cprdev").str("variant", variant).i("B", B).i("act", act).i("n", n).i("werr", e12(werr)); vr::emit(d.done());
 }
 // partial_update with the unchanged matrix: the global preconditioner S is scripted (it answers with chosen
 // vectors, so that the residual f - A S f the transfer operator Fpp is applied to is far from zero), the
